@@ -46,6 +46,17 @@ def cases(thorough):
                             for k in range(1, len(chunks) + 1):
                                 out.append(rc.base_case(cl=cl, chunks=chunks, kind=kind, use_write=use_write, fail="write" if use_write else "iter", fail_k=k,
                                                         exc=exc, lse=lse, version=version, conn=conn))
+    # the application changes its mind before any output (exc_info re-call): the response is framed by the second
+    # call's headers only - a Content-Length declared by the abandoned first call does not count
+    for (version, conn) in (("1.1", ""), ("1.0", "keep-alive")):
+        for cl in ("none", "exact"):
+            for chunks, first in (([3], 1), ([3], 7), ([2, 2], 0), ([], 5)):
+                for kind in ("list", "gen"):
+                    c = rc.base_case(status=("503 Later", 503), cl=cl, chunks=chunks, kind=kind, version=version, conn=conn)
+                    c["sr_twice"] = {"status": "503 Later", "headers": [["X-App", "v1"]], "first_cl": first}
+                    c["py_status"] = "200 OK"
+                    c["py_headers"] = [["X-First", "1"]]
+                    out.append(c)
     return out
 
 
